@@ -11,9 +11,9 @@ from vf.tlc import Raw
 META = {
     "engine": "data",
     "text": "Xfcc.tla defines the XFCC grammar on characters (a left-to-right scanner over the delimiter alphabet "
-            "{, ; = \" \\ key-letter value-char}) and reports every value as position-identified tokens.  TLC enumerates "
-            "all strings over the alphabet up to length 4 (quick) / 6 (thorough), all strings 'k=' + tail with tails up to "
-            "length 4 / 6 (every grammar-valid header starts with a key: this reaches all valid headers of length 6 / 8 that "
+            "{, ; = \" \\ key-letter value-char} plus the percent-escapes %2C %3B %3D %22 %5C as ordinary value characters) and reports every value as position-identified tokens.  TLC enumerates "
+            "all strings over the alphabet up to length 4 (quick, 9 symbols) / 5 (thorough, 12 symbols), all strings 'k=' + tail with tails up to "
+            "length 4 / 5 (every grammar-valid header starts with a key: this reaches all valid headers of length 6 / 7 that "
             "start with a one-letter key), and a "
             "structured family of longer valid headers (quoted values containing fake pairs/elements, escaped quotes, "
             "escaped backslashes), each with its reference parse, and checks five sanity invariants that tie the "
